@@ -77,6 +77,16 @@ fn main() {
         println!("{}", props::c15::obs_line(&props::c15::observe(pi)));
         return;
     }
+    if args[1] == "fmt" {
+        // mmv fmt <src-or-file> <width>   (ad-hoc debugging aid: the formatter's output)
+        let src = if std::path::Path::new(&args[2]).exists() { std::fs::read_to_string(&args[2]).unwrap() } else { args[2].clone() };
+        let w: usize = args.get(3).and_then(|s| s.parse().ok()).unwrap_or(80);
+        match mimium_fmt::pretty_print_cst(&src, &None, w) {
+            Ok(o) => print!("{o}"),
+            Err(e) => println!("ERR {e:?}"),
+        }
+        return;
+    }
     if args[1] == "diag" {
         // mmv diag <src-or-file>   (ad-hoc debugging aid: diagnostics of the VM compile entry point with their labels)
         let src = if std::path::Path::new(&args[2]).exists() { std::fs::read_to_string(&args[2]).unwrap() } else { args[2].clone() };
